@@ -99,10 +99,12 @@ def result_err(e, root):
     if isinstance(e, d.GeneralError) and e.stack is not None:
         try:
             r['trace'] = trace_of(e.stack_traceback(-1), root)
-            # the CLI asks for the last five entries
-            t5 = trace_of(e.stack_traceback(5), root)
-            if t5 != r['trace'][-5:]:
-                r['trace5'] = t5
+            # asking for the last n entries returns exactly the n innermost (the CLI asks for five)
+            for n in (0, 1, 2, 3, 5, 8):
+                tn = trace_of(e.stack_traceback(n), root)
+                want = r['trace'][-n:] if n > 0 else []
+                if tn != want:
+                    r.setdefault('trace_limit_bad', []).append([n, tn])
         except Exception as ex:   # producing the trace must always succeed (C09)
             return dict(kind='crash', exc='trace:' + type(ex).__name__, where=innermost_frame(ex), msg=str(ex)[:200])
         try:
@@ -197,10 +199,13 @@ def run_case_inner(case, root: Path):
             # report the project config of the entry file's folder as it is now
             cf = (root / case['file']).parent / 'config.yaml'
             if cf.exists():
-                try: r['cfgNow'] = yaml.safe_load(cf.read_text())
-                except Exception as ex: r['cfgNow'] = 'unreadable:' + type(ex).__name__
+                try:
+                    r['cfgNow'] = yaml.safe_load(cf.read_text())
+                    from dataclasses import asdict
+                    r['cfgAfter'] = asdict(d.CompileOptions(**(r['cfgNow'] or {})))
+                except Exception as ex: r['cfgNow'] = r['cfgAfter'] = 'unreadable:' + type(ex).__name__
             else:
-                r['cfgNow'] = None
+                r['cfgNow'] = r['cfgAfter'] = None
         return r
     if op == 'parse':
         try:
@@ -234,7 +239,65 @@ def run_case_inner(case, root: Path):
             except Exception as ex:
                 res.append(dict(kind='crash', exc=type(ex).__name__, where=innermost_frame(ex), msg=str(ex)[:200]))
         return dict(kind='history', results=res)
+    if op == 'cli':
+        return run_cli(case, root)
     raise ValueError('unknown op ' + str(op))
+
+
+def run_cli(case, root: Path):
+    """the CLI functions in a sandboxed HOME and cwd; MUST run in a fresh process (config is cached per process)"""
+    import contextlib, io, yaml
+    home = root / 'home'
+    (home).mkdir(parents=True, exist_ok=True)
+    os.environ['HOME'] = str(home)
+    if case.get('home_cfg') is not None:
+        (home / '.duckling').mkdir(exist_ok=True)
+        hc = case['home_cfg']
+        (home / '.duckling' / 'config.yaml').write_text(hc if isinstance(hc, str) else yaml.dump(hc))
+    work = root / 'work'
+    work.mkdir(exist_ok=True)
+    for p, text in (case.get('pre_files') or {}).items():
+        f = work / p; f.parent.mkdir(parents=True, exist_ok=True); f.write_text(text)
+    # materialise() wrote files/cfgs under root; move them under work
+    for p in list(case.get('files') or {}) + [d + '/config.yaml' for d in (case.get('cfgs') or {})]:
+        src = root / p
+        if src.exists():
+            dst = work / p; dst.parent.mkdir(parents=True, exist_ok=True); shutil.move(str(src), str(dst))
+    os.chdir(work)
+    steps = []
+    buf0 = io.StringIO()
+    with contextlib.redirect_stdout(buf0), contextlib.redirect_stderr(buf0):
+        try:
+            import importlib
+            importlib.import_module('ducklingscript.cli')
+            cc = sys.modules['ducklingscript.cli.compile']
+            cn = sys.modules['ducklingscript.cli.new']
+            imp_err = None
+        except Exception as ex:
+            imp_err = type(ex).__name__ + ': ' + str(ex)[:200]
+    if imp_err:
+        return dict(kind='crash', exc='cli-import', msg=imp_err)
+    for inv in case['invocations']:
+        before = snapshot(root)
+        buf = io.StringIO()
+        raised = None
+        with contextlib.redirect_stdout(buf), contextlib.redirect_stderr(buf):
+            try:
+                if inv['cmd'] == 'compile':
+                    kw = {}
+                    if 'stack_limit' in inv: kw['stack_limit'] = inv['stack_limit']
+                    if 'comments' in inv: kw['comments'] = inv['comments']
+                    cc.compile((work / inv['file']).resolve(), (work / inv.get('output', 'a.txt')).resolve(), **kw)
+                elif inv['cmd'] == 'new':
+                    cn.new(inv['name'], (work / inv['path']) if inv.get('path') else None)
+            except Timeout:
+                raise
+            except BaseException as ex:
+                if isinstance(ex, (KeyboardInterrupt, SystemExit)): raise
+                raised = type(ex).__name__ + ': ' + str(ex)[:200]
+        steps.append(dict(raised=raised, stdout=buf.getvalue(), before=before, after=snapshot(root)))
+    os.chdir('/')
+    return dict(kind='cli', steps=steps)
 
 
 def run_case(case, scratch: Path | None = None):
@@ -266,16 +329,23 @@ def _init_worker(home):
     ds()
 
 
-def run_cases(cases, workers: int | None = None):
-    """run many cases on a process pool; returns results in order"""
+def run_cases(cases, workers: int | None = None, fresh: bool = False):
+    """run many cases on a process pool; returns results in order.
+    fresh=True: every case runs in a newly forked child of a parent that has imported the package
+    but never compiled anything (pristine process-level state)."""
     import multiprocessing as mp
     workers = workers or min(16, os.cpu_count() or 4)
     home = tempfile.mkdtemp(prefix='dsv-home-', dir=os.environ.get('VERIF_SCRATCH'))
     try:
-        if workers <= 1 or len(cases) < 8:
+        if (workers <= 1 or len(cases) < 8) and not fresh:
             _init_worker(home)
             return [run_case(c) for c in cases]
         ctx = mp.get_context('fork')
+        if fresh:
+            os.environ['HOME'] = home
+            ds()
+            with ctx.Pool(workers, maxtasksperchild=1) as pool:
+                return pool.map(run_case, cases, chunksize=1)
         with ctx.Pool(workers, initializer=_init_worker, initargs=(home,)) as pool:
             return pool.map(run_case, cases, chunksize=max(1, min(64, len(cases) // (workers * 4) or 1)))
     finally:
